@@ -17,7 +17,7 @@ class Untranslatable(Exception):
 
 
 KNOWN_ENUMS = {"Option": ["None", "Some"], "Result": ["Ok", "Err"], "ControlFlow": ["Continue", "Break"], "IpAddr": ["V4", "V6"], "SocketAddr": ["V4", "V6"],
-               "Entry": ["Occupied", "Vacant"], "RustcEntry": ["Occupied", "Vacant"], "Ordering": ["Less", "Equal", "Greater"]}
+               "Entry": ["Occupied", "Vacant"], "RustcEntry": ["Occupied", "Vacant"], "Ordering": ["Less", "Equal", "Greater"], "Bound": ["Included", "Excluded", "Unbounded"]}
 
 
 # ------------------------------------------------------------------------------------------------
